@@ -673,6 +673,15 @@ fn exec<'a>(
             let style = sc.finish_style - 1;
             let pre = (hst.got.len() + h) % 4;
             let a = pma.consume_iter(hspec.method, Box::new(fin.to_vec().into_iter()), pre, style);
+            // what taking the slice search's matches (`want`, collected with next()) in that way gives
+            let model = pma::consume(want.iter().copied(), |m| m, pre, style);
+            if a != model {
+                viol!(
+                    "same-matches",
+                    "handle {h} ({:?}): {pre} next() call(s) then {} give {:?} on the byte-iterator search; the matches of the slice search of the same {} bytes taken the same way are {:?}",
+                    hspec.method, pma::style_name(style), a, fin.len(), model
+                );
+            }
             let inline = (hst.got.len() + fin.len()) % 2 == 1;
             let b = pma.consume_slice(hspec.method, pma::Hay::plain(fin), inline, pre, style);
             if a != b {
